@@ -6,8 +6,15 @@ import streams
 from checks._propcommon import dumps_of, standard_programs
 from common import parse_q
 
-THEOREMS = ["LNN.C17_range", "LNN.C17_aggregate_range", "LNN.C17_contradiction_iff", "LNN.C17_hasContra_iff",
-            "LNN.C17_state_total", "LNN.C17_region_pos"]
+THEOREMS = ["LNN.C17_range",
+            "LNN.C17_aggregate_range",
+            "LNN.C17_contradiction_iff",
+            "LNN.C17_contradiction_alpha_one",
+            "LNN.C17_hasContra_iff",
+            "LNN.C17_state_total",
+            "LNN.C17_region_pos",
+            "LNN.C17_state_C",
+            "LNN.C17_state_cases"]
 MODULES = ["LnnVerif.Props.C17"]
 FACETS = {"bounds", "contra", "state"}
 DOCUMENTED = {"UNKNOWN", "TRUE", "FALSE", "CONTRADICTION", "APPROX_FALSE", "APPROX_UNKNOWN", "EXACT_UNKNOWN", "APPROX_TRUE"}
